@@ -207,23 +207,44 @@ def walphase_signature1(h, im, diff):
     return True
 
 
-def asyncreplay_signature(h, im, diff):
-    """asynchronous replay: a write acknowledged by the re-opened shard while the log had not been re-applied yet; every
-    failing cell is a cell of that write, the value wanted is the value it wrote, and the value found is the value of a
-    record of that cell in the image's live log (the replay re-applied the older record over the newer write)"""
+def asyncreplay_cells(h, im, diff):
+    """asynchronous replay: a write acknowledged by the re-opened shard while the log had not been re-applied yet; a failing
+    cell is explained when it is a cell of that write, the value wanted is the value it wrote, and the value found is the value
+    of a record of that cell in the image's live log (the replay re-applied the older record over the newer write)"""
     a = im.get("async")
     if not a or not a.get("extra") or not a["extra_acked"] or not diff:
-        return False
+        return []
     extra = {(r["s"], r["t"], fv["f"]): fv["v"] for r in a["extra"] for fv in r["f"]}
     live = [i for p in (im.get("parts") or []) for i in p]
+    out = []
     for c in diff:
         k = (c["s"], c["t"], c["f"])
         if k not in extra or not c["wok"] or not c["gok"] or c["want"] != extra[k]:
-            return False
+            continue
         logged = [v for (i, v) in writes_to(h, im["acked"], im["inflight"] if im["inflight"] >= 0 else None, c) if i in live]
-        if c["got"] not in logged:
-            return False
-    return True
+        if c["got"] in logged:
+            out.append(c)
+    return out
+
+
+def classify(h, im, dff, code, parent_torn):
+    """ids of the known findings that together explain EVERY failing cell, or [] """
+    if not dff:
+        if im.get("err") and "open after crash failed" in im["err"] and im.get("txn", 0) >= 2:
+            return ["C01-idxtxn"]
+        return ["C01-walheadereof"] if parent_torn == WAL_HEAD else []
+    ac = asyncreplay_cells(h, im, dff)
+    rest = [c for c in dff if c not in ac]
+    fids = ["C01-asyncreplay"] if ac else []
+    if rest:
+        cur_ok = code is not None and (code & 2)
+        if cur_ok and (walphase_signature1(h, im, rest) or (not ac and walphase_signature(h, im))):
+            fids.append("C01-walphase")
+        elif not ac and parent_torn == WAL_HEAD:
+            return ["C01-walheadereof"]
+        else:
+            return []
+    return fids
 
 
 def main(ck):
@@ -252,7 +273,7 @@ def main(ck):
     except (OSError, ValueError, KeyError):
         pass
     ck.coq_audit(["C01"])
-    ok = ck.coq_build(["C01/Proofs.vo", "C01/Proofs2.vo", "C01/Proofs3.vo", "C01/Proofs4.vo", "C01/Corr.vo"])
+    ok = ck.coq_build(["C01/Proofs.vo", "C01/Proofs2.vo", "C01/Proofs3.vo", "C01/Proofs4.vo", "C01/Proofs5.vo", "C01/Corr.vo"])
     if ok:
         ck.coq_props(["C01/Props.v", "C01/Refuted.v"])
     binp = ck.go_build("./cmd/c01", "c01")
@@ -416,18 +437,11 @@ def main(ck):
             if not okimg:
                 failures.append((im.get("err") or ("recovered rows differ from the acknowledged last-write-wins state: %s" % json.dumps((im.get("diff") or [])[:3])), im.get("diff")))
             for what, dff in failures:
-                fid = None
-                if dff and a and asyncreplay_signature(h, im, dff):
-                    fid = "C01-asyncreplay"
-                elif dff and code is not None and (code & 2) and walphase_signature(h, im):
-                    fid = "C01-walphase"
-                elif im.get("err") and "open after crash failed" in im["err"] and im.get("txn", 0) >= 2:
-                    fid = "C01-idxtxn"
-                elif parent_torn == WAL_HEAD:
-                    fid = "C01-walheadereof"
-                if fid and ck.match_finding(fid):
-                    fail_known[fid] += 1
-                    ck.known_finding(fid, what_known[fid])
+                fids = classify(h, im, dff, code, parent_torn)
+                if fids and all(ck.match_finding(f) for f in fids):
+                    for fid in fids:
+                        fail_known[fid] += 1
+                        ck.known_finding(fid, what_known[fid])
                 else:
                     nviol += 1
                     if nviol <= 3:
@@ -436,7 +450,7 @@ def main(ck):
                                       "crash": {"at": im["at"], "during_op": im["op"], "acked_ops": im["acked"], "inflight_op": im["inflight"],
                                                 "torn_bytes": im["torn"], "recovery_mutations_before_second_crash": im["sub"],
                                                 "live_wal_parts": im["parts"], "pending_index_txn": im.get("txn"), "async_replay": a},
-                                      "diff": dff, "model_code": code, "matched_fixed_or_unknown_finding": fid})
+                                      "diff": dff, "model_code": code, "matched_fixed_or_unknown_finding": fids or None})
     ck.cov["evaluations"] = nimg
     ck.cov["distinct_nontrivial"] = len(nontriv)
     ck.cov["traces_validated_against_impl"] = sum(len(c) for c in codes.values()) - len(model_disagree)
